@@ -16,13 +16,17 @@ use std::sync::Arc;
 
 pub struct C08;
 
-const SYM_INFIX: &[&str] = &["**", "<<<", "===", "&&&", "|||", ">>>", "%%"];
-const SYM_PREFIX: &[&str] = &["+++", "!!"];
-const SYM_POSTFIX: &[&str] = &["---", "+++"];
+// symbolic names (every prefix is an operator, so they tokenize by maximal munch) and names that
+// start outside the tokenizer's operator characters but are not identifiers either
+const SYM_INFIX: &[&str] = &["**", "<<<", "===", "&&&", "|||", ">>>", "%%", "~=", "is-a", "@@", "<~"];
+const SYM_PREFIX: &[&str] = &["+++", "!!", "~", "@@"];
+const SYM_POSTFIX: &[&str] = &["---", "+++", "@!", "~~"];
 const BUILTIN_LEVELS: &[i32] = &[20, 40, 50, 60, 70, 80, 90, 100, 110, 120, 200];
 
 struct G<'a> {
     r: &'a mut Prng,
+    /// operations to emit before the next registration (a word used as a plain name before it becomes an operator)
+    before: Vec<Op>,
     case: Case,
     reg: MReg,
     n: usize,
@@ -35,6 +39,20 @@ struct G<'a> {
 impl<'a> G<'a> {
     fn marker(&mut self, k: HKind) -> usize {
         self.case.add_handler(HandlerSpec::plain(k, Ret::Marker))
+    }
+
+    /// a fresh word that will be registered as an operator: in a third of the cases it is first
+    /// used as a plain (unbound) name, while it is not an operator yet
+    fn fresh_word(&mut self, prefix: &str) -> String {
+        self.n += 1;
+        let name = format!("{}{}", prefix, self.n);
+        if self.r.chance(1, 3) {
+            self.before.push(Op::Exec {
+                prog: Prog::Stmts(vec![lit_i(self.r.range(1, 9)), rf(&name)]),
+                ctx: CtxRef::Fresh(CtxSpec::empty()),
+            });
+        }
+        name
     }
 
     fn level_assoc(&self, prec: i32, except: &str) -> Option<bool> {
@@ -59,10 +77,7 @@ impl<'a> G<'a> {
 
     fn reg_infix(&mut self) -> Op {
         let name = match self.r.below(10) {
-            0..=3 => {
-                self.n += 1;
-                format!("iw{}", self.n)
-            }
+            0..=3 => self.fresh_word("iw"),
             4..=5 => self.r.pick(SYM_INFIX).to_string(),
             6..=7 => {
                 // re-register something that exists (possibly a built-in): another handler and/or precedence
@@ -114,10 +129,7 @@ impl<'a> G<'a> {
                 let name = match self.r.below(4) {
                     0 => (*self.r.pick(&["-", "!", "not"])).to_string(),
                     1 => self.r.pick(SYM_PREFIX).to_string(),
-                    _ => {
-                        self.n += 1;
-                        format!("pw{}", self.n)
-                    }
+                    _ => self.fresh_word("pw"),
                 };
                 if matches!(self.reg.prefix.get(&name), Some(Impl::Builtin)) {
                     self.overrides += 1;
@@ -130,10 +142,7 @@ impl<'a> G<'a> {
                 let name = match self.r.below(4) {
                     0 => (*self.r.pick(&["++", "--"])).to_string(),
                     1 => self.r.pick(SYM_POSTFIX).to_string(),
-                    _ => {
-                        self.n += 1;
-                        format!("qw{}", self.n)
-                    }
+                    _ => self.fresh_word("qw"),
                 };
                 if matches!(self.reg.postfix.get(&name), Some(Impl::Builtin)) {
                     self.overrides += 1;
@@ -262,7 +271,7 @@ impl<'a> G<'a> {
 }
 
 pub fn gen_case(r: &mut Prng) -> (Case, [u64; 4]) {
-    let mut g = G { r, case: Case::new("C08"), reg: MReg::builtin(), n: 0, adjacent_pairs: 0, chains: 0, overrides: 0, shadows: 0 };
+    let mut g = G { r, before: vec![], case: Case::new("C08"), reg: MReg::builtin(), n: 0, adjacent_pairs: 0, chains: 0, overrides: 0, shadows: 0 };
     // ASTs parsed once, before every registration of the history, and executed later: a pre-parsed
     // AST must dispatch to whatever is registered when it is EXECUTED
     if g.r.chance(1, 2) {
@@ -287,6 +296,11 @@ pub fn gen_case(r: &mut Prng) -> (Case, [u64; 4]) {
         } else {
             g.evaluation()
         };
+        let before = std::mem::take(&mut g.before);
+        g.case.pre.extend(before);
+        // sometimes the operation is made by ANOTHER thread (spawned and joined): what one thread
+        // registered must be what every other thread uses afterwards
+        let op = if g.r.chance(1, 8) { Op::OnThread { ops: vec![op] } } else { op };
         g.case.pre.push(op);
     }
     // the history always ends with a chain over the final table
@@ -313,11 +327,11 @@ impl Prop for C08 {
             id: "C08",
             level: "exploration",
             rule: "case = a seeded history of 3..13 operations by one simulated caller in a fresh simulated process: register_function / prefix / infix / postfix \
-                   (fresh word and symbolic names, re-registrations, overrides of built-ins, precedences in 1..=10^9 biased to collide with or sit at +-1/+-2 of \
+                   (fresh word names - a third of them first used as plain names -, symbolic names and names such as `~=` / `is-a` / `@@`, re-registrations, overrides of built-ins, precedences in 1..=10^9 biased to collide with or sit at +-1/+-2 of \
                    existing levels, both associativities, one associativity per level), interleaved with calls (context function / variable shadowing a \
                    global name, unknown names), prefix/postfix applications, and parses and evaluations of unparenthesised operator chains of 2..5 operators \
                    over the current table, and executions of ASTs that were parsed before the whole history (they must dispatch to what is registered when they are \
-                   executed); every handler returns a structural marker. The first operation is a registration in half of the cases \
+                   executed); one operation in eight is made by another (spawned and joined) thread; every handler returns a structural marker. The first operation is a registration in half of the cases \
                    (registration before first use). evaluations = simulated executions; distinct_nontrivial = distinct histories containing at least two \
                    registrations and one chain",
             assumptions: &[
@@ -326,7 +340,7 @@ impl Prop for C08 {
                 "built-in operator values come from the engine used as a calculator",
             ],
             fault_kinds: &["fresh_process", "register_before_first_use"],
-            probes: &["adjacent_precedence_pair_in_chain", "builtin_overridden", "context_shadows_global", "chains"],
+            probes: &["adjacent_precedence_pair_in_chain", "builtin_overridden", "context_shadows_global", "chains", "operation_on_another_thread", "word_used_before_it_became_an_operator"],
         }
     }
 
@@ -353,6 +367,12 @@ impl Prop for C08 {
         }
         let out = rt.sim(&case, &SchedSpec::Lowest);
         rt.fired("fresh_process", 1);
+        if case.pre.iter().any(|o| matches!(o, Op::OnThread { .. })) {
+            rt.probe("operation_on_another_thread");
+        }
+        if case.pre.windows(2).any(|w| matches!((&w[0], &w[1]), (Op::Exec { .. }, o) if o.is_reg())) {
+            rt.probe("word_used_before_it_became_an_operator");
+        }
         if case.pre[0].is_reg() && case.shared.is_empty() {
             rt.fired("register_before_first_use", 1);
         }
